@@ -142,6 +142,11 @@ def sort_Search (n : Int) (f : Int → Bool) : Int :=
 are about -/
 def bytes_Replace (s old new : Bytes) (n : Int) : Bytes :=
   Crng.Rw.replaceN old new (s.length + 1) (if n < 0 then none else some n.toNat) s
+/-- `strings.SplitN(s, sep, 2)` for a one-byte separator: cut at the first occurrence (other `n` are not modelled) -/
+def strings_SplitN (s sep : Bytes) (_n : Int) : List Bytes :=
+  match sep with
+  | [c] => if s.contains c then [s.takeWhile (· != c), (s.dropWhile (· != c)).drop 1] else [s]
+  | _ => [s]
 /-- a Go `map[K]V` with integer keys and values: a missing key reads as the zero value -/
 def mapGet (m : List (Int × Int)) (k : Int) : Int := ((m.find? (·.1 == k)).map (·.2)).getD 0
 def mapSet (m : List (Int × Int)) (k v : Int) : List (Int × Int) := (k, v) :: m.filter (·.1 != k)
@@ -200,6 +205,7 @@ structure RW where
   re : Option RegexpI
   notRe : Option RegexpI
   deriving Inhabited
+instance : ToArg RW := ⟨fun r => arg (r.Old, r.New, r.Not, r.Max)⟩
 /-- rewriter/rewriter.go error values -/
 def errEmptyOld : Err := some "Rewriter must have non-empty 'old' specification"
 def errMaxTooLow : Err := some "max must be >= -1. use -1 to mean no restriction"
@@ -330,9 +336,11 @@ def time_Second : Int := 1000000000
 def time_Millisecond : Int := 1000000
 def time_Microsecond : Int := 1000
 instance : Add Bytes := ⟨List.append⟩
-/-- `table.Interface` as `readDestination` uses it -/
+/-- `table.Interface` as the readers and the TOML `Init*` functions use it -/
 structure TableI where
   GetSpoolDir : Bytes
+  GetIn : Unit := ()
+  id : Nat := 0
 /-- the six filter options handed to `matcher.New` -/
 structure MatcherArgs where
   prefix_ : Bytes
@@ -362,6 +370,43 @@ structure DestArgs where
   unspoolSleep : Int
   deriving DecidableEq, Inhabited
 abbrev DestP := Option DestArgs
+/-- the arguments of `aggregator.New`, in its parameter order (the output channel aside) -/
+structure AggArgs where
+  fn : Bytes
+  matcher : MatcherArgs
+  outFmt : Bytes
+  cache : Bool
+  interval : Int
+  wait : Int
+  dropRaw : Bool
+  deriving DecidableEq, Inhabited
+instance : ToArg MatcherArgs := ⟨fun m => arg [m.prefix_, m.notPrefix, m.sub, m.notSub, m.regex, m.notRegex]⟩
+instance : ToArg AggArgs := ⟨fun a => arg (a.fn, a.matcher, a.outFmt, a.cache, a.interval, a.wait, a.dropRaw)⟩
+/-- cfg/cfg.go `type Aggregation struct`, `type Rewriter struct`, and the parts of `type Config struct` the `Init*`
+functions read -/
+structure AggregationCfg where
+  Function : Bytes
+  Regex : Bytes
+  NotRegex : Bytes
+  Prefix : Bytes
+  NotPrefix : Bytes
+  Substr : Bytes
+  Sub : Bytes
+  NotSub : Bytes
+  Format : Bytes
+  Cache : Bool
+  Interval : Int
+  Wait : Int
+  DropRaw : Bool
+structure RewriterCfg where
+  Old : Bytes
+  New : Bytes
+  Not : Bytes
+  Max : Int
+structure Config where
+  Aggregation : List AggregationCfg
+  BlackList : List Bytes
+  Rewriter : List RewriterCfg
 /-- imperatives.go `errFmtAddRoute` -/
 def errFmtAddRoute : Err := some "addRoute <type> <key> [prefix/sub/regex=,..]  <dest>  [<dest>[...]]"
 
@@ -381,9 +426,14 @@ structure Env where
   matcher_New : Bytes → Bytes → Bytes → Bytes → Bytes → Bytes → MatcherArgs × Err
   /-- `regexp.Compile` -/
   regexp_Compile : Bytes → Option RegexpI × Err
+  /-- `aggregator.New(fun, matcher, outFmt, cache, interval, wait, dropRaw, out)` -/
+  aggregator_New : Bytes → MatcherArgs → Bytes → Bool → Int → Int → Bool → Unit → AggArgs × Err
+  /-- `rewriter.New(old, new, not, max)` (translated itself: `Crng.Gen.Code.rewriter_New`) -/
+  rewriter_New : Bytes → Bytes → Bytes → Int → RW × Err
   /-- `destination.New(...)`: the destination (here: the arguments it was built from) or an error -/
   destination_New : Bytes → MatcherArgs → Bytes → Bytes → Bool → Bool → Int → Int → Int → Int → Int → Int → Int → Int → Int → Int → DestP × Err
 instance : Inhabited Env := ⟨⟨fun _ _ _ => default, fun _ _ => default, fun _ => default, fun _ => default, fun _ => default, fun b => b,
-  fun _ _ _ _ _ _ => default, fun _ => default, fun _ _ _ _ _ _ _ _ _ _ _ _ _ _ _ _ => default⟩⟩
+  fun _ _ _ _ _ _ => default, fun _ => default, fun _ _ _ _ _ _ _ _ => default, fun _ _ _ _ => default,
+  fun _ _ _ _ _ _ _ _ _ _ _ _ _ _ _ _ => default⟩⟩
 
 end Crng.Code
